@@ -20,6 +20,7 @@ ADAPTER = "harness.adapters_c08:Adapter"
 BOOT_ADAPTER = "harness.c08_boot:BootAdapter"
 REND = ["Register", "CallWhenReady", "ListenTo", "GoUp"]
 LIFE = ["GetDeferral", "Release", "Quit"]
+LIFE_CFGS = ("A", "B", "L2", "L3")      # catalogs in which deferrals and quit are explored
 SPEC = "core"
 MOD = "MCRendezvous"
 
@@ -54,8 +55,31 @@ def nontrivial(beh):
   return any(any(lg for lg in st["exp"].get("logs", [])) for st in beh)
 
 
+CLASS_KEYS = ("action", "via", "observed", "callback", "container", "handlers", "observed_life",
+              "expected_life", "fired_extra", "fired_missing", "fields", "life")
+
+
+def _one_replay_per_class(ctx, keep=2):
+  """The engine keeps replay files for the first 50 failures only; one defect can
+  produce thousands of failing behaviours and hide the others.  Keep `keep`
+  failures per failure class in ctx.violations and count the rest."""
+  orig = ctx.report
+  seen = {}
+
+  def report(sig, replay):
+    k = core.canon({x: sig[x] for x in CLASS_KEYS if x in sig})
+    seen[k] = seen.get(k, 0) + 1
+    if seen[k] > keep and not any(core.sig_matches(e["signature"], sig) for e in ctx.known):
+      ctx.notes["failures_not_listed_individually"] = ctx.notes.get("failures_not_listed_individually", 0) + 1
+      return "violation"
+    return orig(sig, replay)
+  ctx.report = report
+  return seen
+
+
 def run(ctx):
   quick = ctx.tier == "quick"
+  classes = _one_replay_per_class(ctx)
   ctx.rule = ("behaviours exported by TLC from Rendezvous.tla (edge cover: shortest path to every "
               "abstract state + each outgoing transition, per catalog; plus -simulate runs over 5 "
               "components / 5 waiters) replayed on a fresh real POXCore each, callback log / registry / "
@@ -87,7 +111,7 @@ def run(ctx):
       r = f.result()
       if r.violated:
         raise tlc.TLCError("spec violates its own property %s (%s):\n%s" % (r.violated, c, r.error_trace))
-      tlc.require_coverage(r, REND + (LIFE if c[0] != "Q" else []), "Rendezvous " + c)
+      tlc.require_coverage(r, REND + (LIFE if c in LIFE_CFGS else []), "Rendezvous " + c)
       ctx.add_model("Rendezvous catalog %s" % c, r)
     exported = [(c, f.result()) for c, f in f_ex]
     sims = [(c, f.result()) for c, f in f_sim]
@@ -163,6 +187,9 @@ def run(ctx):
         traces=len(traces), events=sum(len(t) for t in traces), rejected=nrej,
         negative_controls_rejected=[w for _, w in valid])
   ctx.exhaustive = True
+  if classes:
+    ctx.notes["failure_classes"] = [dict(n=n, cls=core.json.loads(k)) for k, n in
+                                    sorted(classes.items(), key=lambda kv: -kv[1])[:40]]
 
 
 # --------------------------------------------------------------------------
